@@ -972,6 +972,26 @@ Proof.
   intros H. rewrite skipn_set_nth. destruct (Nat.ltb n k) eqn:E; [lia|]. apply Nat.ltb_ge in E.
   rewrite sumZ_set_nth by (rewrite skipn_length; lia). rewrite nth_skipn'. replace (k + (n - k))%nat with n by lia. lia.
 Qed.
+Lemma walk_sq_snoc nd_ h d l : forall from t a,
+  walk_sq nd_ h d from t (l ++ [a]) =
+  walk_sq nd_ h d from t l +
+  match walk_acc nd_ h d from t l with
+  | (tot, _, lst) => if is_del nd_ h a then (tot + d lst a) * (tot + d lst a) else 0
+  end.
+Proof.
+  induction l as [|x l IH]; intros from t a; cbn [app walk_sq walk_acc].
+  - lia.
+  - rewrite IH. destruct (walk_acc nd_ h d x (t + d from x) l) as [[tot late] lst]. lia.
+Qed.
+Definition sqs (l : list Z) : Z := sumZ (map (fun t => t * t) l).
+Lemma set_nth_map {A B} (f : A -> B) n x l : map f (set_nth n x l) = set_nth n (f x) (map f l).
+Proof. revert n; induction l as [|y l IH]; intros [|n]; cbn [set_nth map]; try reflexivity. rewrite IH. reflexivity. Qed.
+Lemma sqs_skipn_set_nth k n x l : (n < length l)%nat ->
+  sqs (skipn k (set_nth n x l)) = sqs (skipn k l) + (if Nat.ltb n k then 0 else x * x - nth n l 0 * nth n l 0).
+Proof.
+  intros H. unfold sqs. rewrite <- !skipn_map, set_nth_map. rewrite sumZ_skipn_set_nth by (rewrite map_length; exact H).
+  change 0 with ((fun t => t * t) 0) at 2. rewrite map_nth. reflexivity.
+Qed.
 Lemma set_nth_same {A} n (d : A) l : set_nth n (nth n l d) l = l.
 Proof. revert n; induction l as [|y l IH]; intros [|n]; cbn [set_nth nth]; try reflexivity. rewrite IH. reflexivity. Qed.
 
@@ -979,6 +999,9 @@ Lemma sumZ_repeat0 n : sumZ (repeat 0 n) = 0.
 Proof. induction n as [|n IH]; [reflexivity | cbn [repeat sumZ]; lia]. Qed.
 Lemma sumZ_skipn_repeat0 k n : sumZ (skipn k (repeat 0 n)) = 0.
 Proof. revert k; induction n as [|n IH]; intros [|k]; cbn [repeat skipn sumZ]; try reflexivity; [rewrite sumZ_repeat0; reflexivity | apply IH]. Qed.
+
+Lemma sqs_skipn_repeat0 k n : sqs (skipn k (repeat 0 n)) = 0.
+Proof. unfold sqs. rewrite <- skipn_map. replace (map (fun t => t * t) (repeat 0 n)) with (repeat 0 n) by (induction n as [|n IH]; cbn [repeat map]; [reflexivity | rewrite <- IH; reflexivity]). apply sumZ_skipn_repeat0. Qed.
 
 Section Acc.
   Variable F : mdfix.
@@ -999,15 +1022,18 @@ Section Acc.
   Definition acc_len (ps : pstate) : Z :=
     sumZ (map rlen (closed ps)) + match openr ps with Some r => rtot r | None => 0 end.
   Definition acc_late (ps : pstate) : Z := sumZ (map rlate (all_routes ps)).
+  Definition rlate2 (r : mroute) : Z := route_late_sq ndp h D r.
+  Definition acc_late2 (ps : pstate) : Z := sumZ (map rlate2 (all_routes ps)).
 
   Lemma rlen_eq r : rlen r = if opn i then rtot r else rtot r + D (rlst r) (rdep r).
   Proof. unfold rlen, route_length, rtot, rlst. destruct (walk_acc ndp h D (rdep r) 0 (rcus r)) as [[tot late] lst]. reflexivity. Qed.
 
   Lemma snoc_route r a : let r' := {| rdep := rdep r; rcus := rcus r ++ [a] |} in
     rtot r' = rtot r + D (rlst r) a /\ rlst r' = a /\
-    rlate r' = rlate r + (if is_del ndp h a then rtot r + D (rlst r) a else 0).
+    rlate r' = rlate r + (if is_del ndp h a then rtot r + D (rlst r) a else 0) /\
+    rlate2 r' = rlate2 r + (if is_del ndp h a then (rtot r + D (rlst r) a) * (rtot r + D (rlst r) a) else 0).
   Proof.
-    cbv zeta. unfold rtot, rlst, rlate, route_late. cbn [rdep rcus]. rewrite walk_acc_snoc.
+    cbv zeta. unfold rtot, rlst, rlate, route_late, rlate2, route_late_sq. cbn [rdep rcus]. rewrite walk_acc_snoc, walk_sq_snoc.
     destruct (walk_acc ndp h D (rdep r) 0 (rcus r)) as [[tot late] lst]. cbn [fst snd]. auto.
   Qed.
 
@@ -1020,6 +1046,7 @@ Section Acc.
     i3_sum : sumZ (lens s) = acc_len ps;
     i3_late : sumZ (skipn (ndp + h) (arr s)) = acc_late ps;
     i3_arr0 : forall j, (ndp + h <= j < nn i)%nat -> ~ In j p -> nth j (arr s) 0 = 0;
+    i3_late2 : sqs (skipn (ndp + h) (arr s)) = acc_late2 ps;
   }.
 
   Lemma reset_inv3 : Inv3 [] pstart (md_reset i).
@@ -1034,6 +1061,7 @@ Section Acc.
     - unfold acc_len. cbn [closed openr pstart map sumZ]. rewrite sumZ_repeat0. reflexivity.
     - unfold acc_late. cbn [map sumZ]. apply sumZ_skipn_repeat0.
     - intros j Hj _. apply nth_repeat_lt. lia.
+    - unfold acc_late2. cbn [map sumZ]. apply sqs_skipn_repeat0.
   Qed.
 
   (* distinct routes have distinct depots *)
@@ -1051,7 +1079,7 @@ Section Acc.
     next_depot F i s (rdep r) = rdep r.
   Proof.
     intros HI H3 Ho. pose proof (nd_eq F i Hgood) as Hndq. pose proof (nn_eq i Hwf) as Hnn.
-    destruct H3 as [Hla Hnode Hcl Hop Hun Hsum Hlate Harr0].
+    destruct H3 as [Hla Hnode Hcl Hop Hun Hsum Hlate Harr0 Hlate2].
     pose proof (inv_ll _ _ _ _ _ HI) as Hll. rewrite Ho in *.
     pose proof (inv_open _ _ _ _ _ HI) as Hio. rewrite Ho in Hio. destruct Hio as (Hdr & _).
     assert (Hlt : (rdep r < ndp)%nat) by (rewrite <- Hdr; apply (inv_depot _ _ _ _ _ HI)).
@@ -1085,6 +1113,8 @@ Section Acc.
     + rewrite sumZ_skipn_set_nth by lia. replace (Nat.ltb (rdep r) (ndp + h)) with true by (symmetry; apply Nat.ltb_lt; lia).
       rewrite Hlate. unfold acc_late, all_routes. cbn [closed openr]. rewrite Ho, app_nil_r. lia.
     + intros j Hj Hnj. rewrite nth_set_nth_neq by lia. apply Harr0; [exact Hj|]. intros Hc. apply Hnj. apply in_app_iff. left. exact Hc.
+    + rewrite sqs_skipn_set_nth by lia. replace (Nat.ltb (rdep r) (ndp + h)) with true by (symmetry; apply Nat.ltb_lt; lia).
+      rewrite Hlate2. unfold acc_late2, all_routes. cbn [closed openr]. rewrite Ho, app_nil_r. lia.
   Qed.
 
   Lemma step_inv3 p ps pend s a :
@@ -1092,7 +1122,7 @@ Section Acc.
     Inv3 (p ++ [a]) (next_ps i ps a) (md_step exact F i s a).
   Proof.
     intros HI H3 Hcase. pose proof (nd_eq F i Hgood) as Hndq. pose proof (nn_eq i Hwf) as Hnn. pose proof H3 as H3'.
-    destruct H3 as [Hla Hnode Hcl Hop Hun Hsum Hlate Harr0].
+    destruct H3 as [Hla Hnode Hcl Hop Hun Hsum Hlate Harr0 Hlate2].
     pose proof (inv_ll _ _ _ _ _ HI) as Hll.
     unfold next_ps.
     destruct Hcase as [(Ho & Hpe & Ha & Hnp & Hd)|[(r & Ho & Hpe & Ha & Hex)|(r & Ho & Ha & Hnp & Htd & Hcp)]]; rewrite Ho in *.
@@ -1114,6 +1144,8 @@ Section Acc.
       + rewrite sumZ_skipn_set_nth by lia. replace (Nat.ltb a (ndp + h)) with true by (symmetry; apply Nat.ltb_lt; lia).
         rewrite Hlate. unfold acc_late, all_routes. cbn [closed openr]. rewrite Ho, app_nil_r, map_app, sumZ_app. cbn. lia.
       + intros j Hj Hnj. rewrite nth_set_nth_neq by lia. apply Harr0; [exact Hj|]. intros Hc. apply Hnj. apply in_app_iff. left. exact Hc.
+      + rewrite sqs_skipn_set_nth by lia. replace (Nat.ltb a (ndp + h)) with true by (symmetry; apply Nat.ltb_lt; lia).
+        rewrite Hlate2. unfold acc_late2, all_routes. cbn [closed openr]. rewrite Ho, app_nil_r, map_app, sumZ_app. cbn. lia.
     - (* the vehicle comes home: the way home is added (closed problem) *)
       subst a. pose proof (inv_deplt _ _ _ _ _ HI r) as Hlt. unfold all_routes in Hlt. rewrite Ho in Hlt.
       specialize (Hlt ltac:(apply in_app_iff; right; left; reflexivity)).
@@ -1129,7 +1161,7 @@ Section Acc.
       assert (Hleg : leg F i s a = D (rlst r) a).
       { unfold leg. rewrite Hndq. replace (Nat.ltb a ndp) with false by (symmetry; apply Nat.ltb_ge; lia).
         rewrite andb_false_r. cbn [andb]. unfold raw_leg. rewrite Hsolo, Hnode. reflexivity. }
-      destruct (snoc_route r a) as (Ht' & Hl' & Hlt').
+      destruct (snoc_route r a) as (Ht' & Hl' & Hlt' & Hlt2').
       constructor; unfold all_routes; cbn [md_step arr node lens closed openr]; rewrite ?Hnxt, ?rnd_exact, ?Hleg, ?(Hop r eq_refl).
       + rewrite set_nth_length. exact Hla.
       + rewrite Hl'. reflexivity.
@@ -1148,6 +1180,13 @@ Section Acc.
           rewrite (Harr0 a) by (try lia; exact Hnp). lia.
       + intros j Hj Hnj. rewrite nth_set_nth_neq; [apply Harr0; [exact Hj|]; intros Hc; apply Hnj; apply in_app_iff; left; exact Hc|].
         intros ->. apply Hnj. apply in_app_iff. right. left. reflexivity.
+      + rewrite sqs_skipn_set_nth by lia. rewrite Hlate2. unfold acc_late2, all_routes. cbn [closed openr]. rewrite Ho, !map_app, !sumZ_app. cbn [map sumZ].
+        rewrite Hlt2'. unfold is_del.
+        destruct (Nat.ltb a (ndp + h)) eqn:Eal.
+        * apply Nat.ltb_lt in Eal. replace (Nat.leb (ndp + h) a) with false by (symmetry; apply Nat.leb_gt; exact Eal). cbn [andb]. lia.
+        * apply Nat.ltb_ge in Eal. replace (Nat.leb (ndp + h) a) with true by (symmetry; apply Nat.leb_le; exact Eal).
+          replace (Nat.ltb a (ndp + 2 * h)) with true by (symmetry; apply Nat.ltb_lt; lia). cbn [andb].
+          rewrite (Harr0 a) by (try lia; exact Hnp). lia.
   Qed.
 
   Lemma adm_inv_both acts : adm (E:=E) i acts = true -> live F i acts ->
@@ -1204,18 +1243,25 @@ Section Acc.
     (forall r, In r (all_routes ps) -> nth (rdep r) ls 0 = rlen r) ->
     sumZ ls = sumZ (map rlen (all_routes ps)) ->
     sumZ (skipn (ndp + h) (arr s)) = acc_late ps ->
-    (mode i < 3)%nat ->
+    sqs (skipn (ndp + h) (arr s)) = acc_late2 ps ->
+    md_mode_ok F i = true ->
     match mode i with
     | O => Some (- (one i * sumZ ls))
     | S O => Some (- (one i * maxl ls))
     | S (S O) => Some (- ((one i - lw i) * sumZ ls + lw i * sumZ (skipn (ndp + h) (arr s))))
+    | S (S (S O)) =>
+        if fx_sq F
+        then Some (- (one i * (one i - lw i) * sumZ ls + lw i * sumZ (map (fun t => t * t) (skipn (ndp + h) (arr s)))))
+        else None
     | _ => None
     end = Some (- md_cost ndp h D (opn i) (mode i) (one i) (lw i) (all_routes ps)).
   Proof.
-    intros Hlen Hpos Hnd Hlt Hall Hpt Hsum Hlate Hmode. unfold md_cost.
+    intros Hlen Hpos Hnd Hlt Hall Hpt Hsum Hlate Hlate2 Hmode. unfold md_cost.
     change (map (route_length ndp h D (opn i)) (all_routes ps)) with (map rlen (all_routes ps)).
     change (map (route_late ndp h D) (all_routes ps)) with (map rlate (all_routes ps)).
-    destruct (mode i) as [|[|[|m]]]; try lia.
+    change (map (route_late_sq ndp h D) (all_routes ps)) with (map rlate2 (all_routes ps)).
+    unfold md_mode_ok in Hmode.
+    destruct (mode i) as [|[|[|[|m]]]]; cbn in Hmode; try discriminate.
     - rewrite Hsum. reflexivity.
     - f_equal. f_equal. f_equal. change maxZ with maxl. apply maxl_same_elements.
       + destruct ls; [cbn in Hlen; lia | discriminate].
@@ -1224,6 +1270,7 @@ Section Acc.
           specialize (Hall e He). apply in_map_iff in Hall as (r & <- & Hr). rewrite (Hpt r Hr). apply in_map. exact Hr.
         * intros Hx. apply in_map_iff in Hx as (r & <- & Hr). rewrite <- (Hpt r Hr). apply nth_In. rewrite Hlen. apply Hlt. exact Hr.
     - rewrite Hsum, Hlate. unfold acc_late. reflexivity.
+    - rewrite Hmode. fold (sqs (skipn (ndp + h) (arr s))). rewrite Hsum, Hlate2. unfold acc_late2. reflexivity.
   Qed.
 
   (* a finished row has a vehicle on the road (the return of the last vehicle is not part of the episode) *)
@@ -1247,7 +1294,7 @@ Section Acc.
   (* ================================================================ C03 *)
   Theorem md_reward_is_objective acts :
     adm (E:=E) i acts = true -> live F i acts -> done E i (run (E:=E) i acts) = true ->
-    fx_ret F = true \/ opn i = true -> (mode i < 3)%nat ->
+    fx_ret F = true \/ opn i = true -> md_mode_ok F i = true ->
     md_reward exact F i (run (E:=E) i acts) = spec_objective i acts.
   Proof.
     intros Hadm Hlive Hdone Hret Hmode.
@@ -1291,6 +1338,7 @@ Section Acc.
       rewrite Hl4 by (apply (closed_open_depots _ _ _ _ _ _ HI Ho Hr0)). apply (i3_closed _ _ _ H3). exact Hr0.
     - rewrite Hl2, (i3_sum _ _ _ H3), Har, map_app, sumZ_app. unfold acc_len. rewrite Ho. cbn [map sumZ]. lia.
     - apply (i3_late _ _ _ H3).
+    - apply (i3_late2 _ _ _ H3).
   Qed.
 
   (* ================================================================ C04: steps after the row has finished *)
@@ -1353,7 +1401,7 @@ Section Acc.
     adm (E:=E) i (acts ++ pad) = true /\
     done E i (run (E:=E) i (acts ++ pad)) = true /\
     mask E i (run (E:=E) i (acts ++ pad)) = only e /\
-    ((1 <= k)%nat -> (mode i < 3)%nat -> md_reward exact F i (run (E:=E) i (acts ++ pad)) = spec_objective i acts).
+    ((1 <= k)%nat -> md_mode_ok F i = true -> md_reward exact F i (run (E:=E) i (acts ++ pad)) = spec_objective i acts).
   Proof.
     intros Hadm Hlive Hdone. cbv zeta.
     destruct (adm_inv_both acts Hadm Hlive) as (ps & pend & HI & H3). set (s := run (E:=E) i acts) in *. set (e := depot s).
@@ -1363,7 +1411,7 @@ Section Acc.
     { unfold padst. split; [exact Hdone|]. split; [exact Hfs|]. split; [reflexivity|]. split; [apply (inv_depot _ _ _ _ _ HI)|].
       split; [apply (inv_la _ _ _ _ _ HI)|]. split; [apply (inv_ll _ _ _ _ _ HI) | apply (i3_la _ _ _ H3)]. }
     (* the state after the first padding step: every route closed *)
-    assert (H1 : forall s1, s1 = md_step exact F i s e -> (mode i < 3)%nat -> md_reward exact F i s1 = spec_objective i acts).
+    assert (H1 : forall s1, s1 = md_step exact F i s e -> md_mode_ok F i = true -> md_reward exact F i s1 = spec_objective i acts).
     { intros s1 -> Hmode. unfold e. rewrite Hdr.
       destruct (back_inv3 acts ps pend s r HI H3 Ho) as [H3' Hnx]. set (s1 := md_step exact F i s (rdep r)) in *.
       unfold spec_objective, md_objective. rewrite (inv_parse _ _ _ _ _ HI).
@@ -1382,11 +1430,12 @@ Section Acc.
       - unfold all_routes. cbn [closed openr]. rewrite app_nil_r, <- Har. apply (done_all_routed _ _ _ _ HI Hdone).
       - unfold all_routes. cbn [closed openr]. rewrite app_nil_r. apply (i3_closed _ _ _ H3').
       - rewrite (i3_sum _ _ _ H3'). unfold acc_len, all_routes. cbn [closed openr]. rewrite app_nil_r. lia.
-      - apply (i3_late _ _ _ H3'). }
+      - apply (i3_late _ _ _ H3').
+      - apply (i3_late2 _ _ _ H3'). }
     (* induction on the number of padding steps *)
     assert (G : forall k, adm (E:=E) i (acts ++ repeat e k) = true /\ padst e (run (E:=E) i (acts ++ repeat e k)) /\
                           ((1 <= k)%nat -> node (run (E:=E) i (acts ++ repeat e k)) = e /\
-                                           ((mode i < 3)%nat -> md_reward exact F i (run (E:=E) i (acts ++ repeat e k)) = spec_objective i acts))).
+                                           (md_mode_ok F i = true -> md_reward exact F i (run (E:=E) i (acts ++ repeat e k)) = spec_objective i acts))).
     { intros k'. induction k' as [|k' IH].
       - cbn [repeat]. rewrite app_nil_r. split; [exact Hadm|]. split; [exact Hp0 | lia].
       - destruct IH as (IH1 & IH2 & IH3).
@@ -1751,7 +1800,7 @@ End Complete.
 
 (* every canonical solution is produced by some admitted episode, whose reward is the solution's objective *)
 Theorem md_optimum_reachable F i acts :
-  md_wfb i = true -> md_good F i = true -> solo i || fx_leg F = true -> fx_ret F = true \/ opn i = true -> (mode i < 3)%nat ->
+  md_wfb i = true -> md_good F i = true -> solo i || fx_leg F = true -> fx_ret F = true \/ opn i = true -> md_mode_ok F i = true ->
   canonical i acts ->
   adm (E:=MDCPDP exact F) i acts = true /\ done (MDCPDP exact F) i (run (E:=MDCPDP exact F) i acts) = true /\
   md_reward exact F i (run (E:=MDCPDP exact F) i acts) = spec_objective i acts.
@@ -1759,3 +1808,50 @@ Proof.
   intros Hwf Hg Hs Hr Hm Hc. destruct (md_mask_complete F i Hwf Hg acts Hc) as (Ha & Hl & Hd).
   split; [exact Ha|]. split; [exact Hd|]. apply (md_reward_is_objective F i Hwf Hg Hs acts Ha Hl Hd Hr Hm).
 Qed.
+
+(* ================================================================ start_mode = "random" *)
+(* with the repair fx_switch the random start depot (td["current_depot"] after reset) is overwritten by the forced first
+   action 0: from the first step on, the row is in exactly the state it would be in with start_mode = "order"; masks,
+   admissibility, done and reward do not depend on the draw *)
+Definition with_start (i : md_inst) (k : nat) : md_inst :=
+  {| ndep := ndep i; nloc := nloc i; caps := caps i; dist := dist i; start := k; opn := opn i; mode := mode i;
+     one := one i; lw := lw i; solo := solo i; legs0 := legs0 i |}.
+
+Theorem md_random_start_irrelevant A F i acts :
+  fx_switch F = true -> (0 < nd F i)%nat ->
+  adm (E:=MDCPDP A F) i acts = adm (E:=MDCPDP A F) (with_start i 0) acts /\
+  (acts <> [] -> adm (E:=MDCPDP A F) i acts = true ->
+   run (E:=MDCPDP A F) i acts = run (E:=MDCPDP A F) (with_start i 0) acts).
+Proof.
+  intros Hsw Hnd.
+  assert (Hstep : forall s a, md_step A F (with_start i 0) s a = md_step A F i s a) by reflexivity.
+  assert (Hmask : forall s, md_mask F (with_start i 0) s = md_mask F i s) by reflexivity.
+  assert (Hrun : forall s l, run_from (E:=MDCPDP A F) (with_start i 0) s l = run_from (E:=MDCPDP A F) i s l).
+  { intros s l. revert s. induction l as [|a l IH]; intros s; cbn [run_from]; [reflexivity|]. cbn [step MDCPDP]. rewrite Hstep. apply IH. }
+  assert (Hadm : forall s l, adm_from (E:=MDCPDP A F) (with_start i 0) s l = adm_from (E:=MDCPDP A F) i s l).
+  { intros s l. revert s. induction l as [|a l IH]; intros s; cbn [adm_from]; [reflexivity|]. cbn [step MDCPDP]. rewrite Hstep, IH.
+    unfold offered. cbn [mask MDCPDP]. rewrite Hmask. reflexivity. }
+  (* the first step from the two reset states *)
+  assert (H0 : md_step A F i (md_reset i) 0 = md_step A F i (md_reset (with_start i 0)) 0).
+  { unfold md_step, next_depot, is_back, leg, raw_leg. rewrite Hsw. cbn [md_reset with_start node depot carry avail todel lens arr stepi ndep nloc start].
+    replace (Nat.ltb 0 (nd F i)) with true by (symmetry; apply Nat.ltb_lt; exact Hnd). reflexivity. }
+  destruct acts as [|a acts]; [split; [reflexivity | congruence]|].
+  unfold adm, run. cbn [reset MDCPDP adm_from run_from step].
+  assert (Hoff : offered (E:=MDCPDP A F) i (md_reset i) a = offered (E:=MDCPDP A F) (with_start i 0) (md_reset (with_start i 0)) a) by reflexivity.
+  rewrite <- Hoff.
+  assert (Ha : offered (E:=MDCPDP A F) i (md_reset i) a = true -> a = 0%nat).
+  { unfold offered. cbn [mask MDCPDP]. unfold md_mask. cbn [md_reset fresh]. destruct a as [|a]; [reflexivity|]. cbn [nth]. intros H. exfalso.
+    destruct (Nat.ltb a (nn i - 1)) eqn:El; [apply Nat.ltb_lt in El; rewrite nth_repeat_lt in H by exact El; discriminate|].
+    apply Nat.ltb_ge in El. rewrite nth_overflow in H by (rewrite repeat_length; exact El). discriminate. }
+  destruct (offered (E:=MDCPDP A F) i (md_reset i) a) eqn:Eo; cbn [andb].
+  - specialize (Ha eq_refl). subst a. rewrite Hstep, <- H0, Hadm. split; [reflexivity|]. intros _ _. rewrite Hrun. reflexivity.
+  - split; [reflexivity | discriminate].
+Qed.
+
+Lemma repaired_mode_ok i : (mode i <= 3)%nat -> md_mode_ok repaired i = true.
+Proof.
+  intros H. unfold md_mode_ok. cbn [repaired fx_sq]. destruct (Nat.ltb (mode i) 3) eqn:E; [reflexivity|].
+  apply Nat.ltb_ge in E. replace (mode i) with 3%nat by lia. reflexivity.
+Qed.
+Lemma repaired_solo i : solo i || fx_leg repaired = true.
+Proof. cbn. apply orb_true_r. Qed.
